@@ -1,17 +1,21 @@
-(* C08: the reader against core/SmtStd.v's std_eval DIRECTLY (not through the printer), by
-   induction on the s-expression, for the Core fragment: true, false, declared Bool constants,
-   (and ..) (or ..) with at least two arguments, (=> a b), (not a) where a is not itself a negation,
-   (ite c a b) and (= a b) on Booleans - any nesting depth.
+(* C08: the term reader against the standard semantics core/SmtStd.v DIRECTLY, by induction on the
+   s-expression (no bound on size or depth) - no detour through the printer.
 
-   [elab_agrees_core]: if the recursive reading [elab] of x (Reader_proofs.v) returns t, then t has
-   sort Bool, denotes a Boolean and std_eval Sg I x = Some (eval I t) for every well-formed
-   interpretation.  With Reader_proofs.machine_simple this is a statement about the stack machine
-   itself: [parse_agrees_core_partial].
-   Where the general statement needs more: every operator that goes through fix_real (arithmetic,
-   comparisons, ite / = on numbers) needs the sorts of the arguments to show that no Int constant is
-   coerced to Real (std_eval is untyped: on an ill-sorted text it may be defined and differ);
-   `not` over a negation and `=` on Booleans need "a Bool term denotes a Boolean".  Both are
-   invariants of a SORTED induction (ssort next to seval), which is done here for sort Bool only. *)
+   Fragment [corelb]: plain names (declared Boolean constants, true, false, let-bound names),
+   and / or (>= 2 arguments), =>, =, ite, not (any argument), and LET with any number of bindings
+   (distinct plain names, bound terms and body in the fragment; shadowing of outer names allowed).
+
+   [elab_agrees_core]: if the recursive reading [elab] of x (Reader_proofs.v) returns i in a state
+   whose cache stacks are Sc, where every FREE name of x means the same thing for the reader (the
+   top of its stack) and for the standard (eval_atom in the environment R I), then i is a term t of
+   sort Bool, the stacks are Sc again, and seval Sigma I (R I) x = Some (eval I t) for every
+   well-formed I.  For a let this is the standard's PARALLEL reading: the bound terms are evaluated
+   in the outer environment, the body in bind_env (outer) names values - whereas the reader binds the
+   names in its cache, some of them EARLY (parser.py's extension: a name that means nothing outside
+   is visible to the later bindings); the proof shows that an early binding is never looked up by a
+   later bound term of the fragment, and that leaving the let restores the stacks.
+   With Reader_proofs.machine_simple this is a statement about the stack machine get_expr itself:
+   [parse_agrees_core_partial]. *)
 From Coq Require Import List ZArith Bool String Ascii Lia.
 From PySMT.core Require Import Syntax Sem SmtStd.
 From PySMT.models Require Import TypeChecker Oracles Ctors SmtLex SmtParser.
@@ -20,76 +24,132 @@ Import ListNotations.
 Open Scope string_scope.
 Open Scope list_scope.
 
+(* ------------------------------------------------------------------------- the fragment *)
+Definition is_none {A} (o : option A) : bool := match o with None => true | Some _ => false end.
+(* a token that both sides read as a name, and as the same name *)
+Definition plain_name (a : string) : bool :=
+  negb (is_paren a) && match sym_name a with Some m => String.eqb m a | None => false end &&
+  is_none (numeral_val a) && is_none (decimal_val a) && is_none (bvlit_val a) && is_none (strlit_val a).
+Lemma plain_name_inv a : plain_name a = true ->
+  is_paren a = false /\ sym_name a = Some a /\ numeral_val a = None /\ decimal_val a = None /\
+  bvlit_val a = None /\ strlit_val a = None.
+Proof.
+  unfold plain_name. intros H.
+  apply andb_true_iff in H. destruct H as [H H6]. apply andb_true_iff in H. destruct H as [H H5].
+  apply andb_true_iff in H. destruct H as [H H4]. apply andb_true_iff in H. destruct H as [H H3].
+  apply andb_true_iff in H. destruct H as [H1 H2]. apply negb_true_iff in H1.
+  split; [exact H1|]. split.
+  - destruct (sym_name a) as [m|]; [|discriminate]. apply String.eqb_eq in H2. now subst.
+  - repeat split; [destruct (numeral_val a) | destruct (decimal_val a) | destruct (bvlit_val a) | destruct (strlit_val a)];
+      first [reflexivity | discriminate].
+Qed.
+Definition core_heads : list string := ["and"; "or"; "=>"; "="; "ite"; "not"].
+Definition let_name (v : string) : bool := plain_name v && negb (str_in v core_heads).
+Definition head_arity_ok (h : string) (n : nat) : bool :=
+  if String.eqb h "and" || String.eqb h "or" then (2 <=? n)%nat
+  else if String.eqb h "=>" || String.eqb h "=" then (n =? 2)%nat
+  else if String.eqb h "ite" then (n =? 3)%nat
+  else if String.eqb h "not" then (n =? 1)%nat else false.
+Definition bname (b : sexp) : string := match b with SList [Atom v; _] => v | _ => "" end.
+
+Fixpoint corelb (x : sexp) : bool :=
+  match x with
+  | Atom a => plain_name a
+  | SList (Atom h :: rest) =>
+      if String.eqb h "let" then
+        match rest with
+        | [SList (b0 :: bs); body] =>
+            forallb (fun b => match b with
+                              | SList [Atom v; val] => let_name v && corelb val
+                              | _ => false
+                              end) (b0 :: bs)
+            && nodup_str (map bname (b0 :: bs)) && corelb body
+        | _ => false
+        end
+      else forallb corelb rest && head_arity_ok h (List.length rest)
+  | SList _ => false
+  end.
+
+(* free names *)
+Fixpoint fn (x : sexp) : list string :=
+  match x with
+  | Atom a => [a]
+  | SList (Atom h :: rest) =>
+      if String.eqb h "let" then
+        match rest with
+        | [SList bs; body] =>
+            flat_map (fun b => match b with SList [_; val] => fn val | _ => [] end) bs ++
+            filter (fun n => negb (str_in n (map bname bs))) (fn body)
+        | _ => []
+        end
+      else flat_map fn rest
+  | SList _ => []
+  end.
+
 Section Core.
   Variable Sg : sig.
-  Variable D : list (string * item).
-  Hypothesis D_true : alookup "true" D = Some (ITerm TTrue).
-  Hypothesis D_false : alookup "false" D = Some (ITerm TFalse).
 
-  (* a declared Boolean constant, seen from both sides *)
-  Definition bool_const (a : string) : Prop :=
-    is_paren a = false /\ sym_name a = Some a /\
-    numeral_val a = None /\ decimal_val a = None /\ bvlit_val a = None /\ strlit_val a = None /\
-    assoc a std_consts = None /\ assoc a (sg_funs Sg) = Some TBool /\
-    alookup a D = Some (ITerm (TSym a TBool)).
+  (* the stacks of the cache; the environments of the standard, one for every interpretation *)
+  Definition scope := string -> list item.
+  Definition st_ok (Sc : scope) (s : pstate) : Prop :=
+    defs s = [] /\ logic_ia s = None /\ forall n, stack_of n s = Sc n.
+  Definition renv := interp -> env.
 
-  Definition is_neg (x : sexp) : bool :=
-    match x with SList (Atom h :: _) => String.eqb h "not" | _ => false end.
-
-  Fixpoint core (x : sexp) : Prop :=
-    match x with
-    | Atom a => a = "true" \/ a = "false" \/ bool_const a
-    | SList (Atom h :: args) =>
-        (fix all (l : list sexp) : Prop := match l with [] => True | y :: r => core y /\ all r end) args /\
-        ((h = "and" \/ h = "or") /\ (2 <= List.length args)%nat \/
-         h = "=>" /\ List.length args = 2%nat \/
-         h = "=" /\ List.length args = 2%nat \/
-         h = "ite" /\ List.length args = 3%nat \/
-         h = "not" /\ exists a, args = [a] /\ is_neg a = false)
-    | SList _ => False
-    end.
-  Lemma core_app h args : core (SList (Atom h :: args)) <->
-    Forall core args /\
-    ((h = "and" \/ h = "or") /\ (2 <= List.length args)%nat \/
-     h = "=>" /\ List.length args = 2%nat \/ h = "=" /\ List.length args = 2%nat \/
-     h = "ite" /\ List.length args = 3%nat \/ h = "not" /\ exists a, args = [a] /\ is_neg a = false).
-  Proof.
-    cbn [core]. split; intros [H1 H2]; split; try exact H2; clear H2.
-    - induction args as [|y r IH]; constructor; [apply H1 | apply IH, H1].
-    - induction H1; [exact I | split; assumption].
-  Qed.
-
-  (* what the induction carries *)
   Definition bval (I : interp) (t : term) : Prop := exists b, eval I t = VBool b.
-  Definition agrees (x : sexp) (t : term) : Prop :=
-    tc t = Some TBool /\ (is_neg x = false -> is_not t = false) /\
-    forall I, wf_interp I -> seval Sg I [] x = Some (eval I t) /\ bval I t.
+  (* what the induction carries about a term the reader returns: sort Bool, Boolean value, and no
+     negation directly under a negation (Not(Not(a)) is simplified by the constructor) *)
+  Definition good (t : term) : Prop :=
+    tc t = Some TBool /\ (forall I, wf_interp I -> bval I t) /\
+    (is_not t = true -> exists b, t = T ONot [b] /\ is_not b = false /\ tc b = Some TBool /\
+                                  forall I, wf_interp I -> bval I b).
+  Definition name_agrees (R : renv) (Sc : scope) (n : string) : Prop :=
+    plain_name n = true /\
+    exists tau, hd_error (Sc n) = Some (ITerm tau) /\ good tau /\
+      forall I, wf_interp I -> eval_atom Sg I (R I) n = Some (eval I tau).
+  Definition heads_free (R : renv) : Prop := forall I h, In h core_heads -> assoc h (R I) = None.
 
+  Definition agrees (R : renv) (x : sexp) (t : term) : Prop :=
+    good t /\ forall I, wf_interp I -> seval Sg I (R I) x = Some (eval I t).
   Definition spec (x : sexp) : Prop :=
-    forall s i s', inv D s -> elab x s = ROk i s' -> inv D s' /\ exists t, i = ITerm t /\ agrees x t.
+    forall R Sc s i s', heads_free R -> (forall n, In n (fn x) -> name_agrees R Sc n) ->
+      st_ok Sc s -> elab x s = ROk i s' ->
+      st_ok Sc s' /\ exists t, i = ITerm t /\ agrees R x t.
 
-  Lemma elab_list_spec args : Forall spec args -> forall s its s', inv D s ->
-    elab_list args s = ROk its s' ->
-    inv D s' /\ exists ts, its = map ITerm ts /\ Forall2 agrees args ts.
+  Lemma st_ok_ext Sc Sc' s : (forall n, Sc n = Sc' n) -> st_ok Sc s -> st_ok Sc' s.
+  Proof. intros H (A & B & C). split; [exact A|]. split; [exact B|]. intros n. now rewrite C. Qed.
+  Lemma cache_get_scope Sc s n : st_ok Sc s -> cache_get n s = hd_error (Sc n).
+  Proof. intros (A & _ & C). rewrite (cache_get_stack s n A). now rewrite C. Qed.
+  Lemma atom_scope Sc s a it : st_ok Sc s -> hd_error (Sc a) = Some it -> atom a s = ROk it s.
+  Proof. intros Hs H. unfold atom. now rewrite (cache_get_scope Sc s a Hs), H. Qed.
+
+  (* ---- applications ---- *)
+  Lemma elab_list_spec R Sc args : heads_free R -> Forall spec args ->
+    (forall n, In n (flat_map fn args) -> name_agrees R Sc n) ->
+    forall s its s', st_ok Sc s -> elab_list args s = ROk its s' ->
+      st_ok Sc s' /\ exists ts, its = map ITerm ts /\ Forall2 (agrees R) args ts.
   Proof.
-    induction 1 as [|y r Hy _ IH]; intros s its s' Hi He.
+    intros HF. induction 1 as [|y r Hy _ IH]; intros Hn s its s' Hi He.
     - cbn in He. inversion He; subst. split; [exact Hi|]. exists []. split; [reflexivity | constructor].
     - unfold elab_list in *. cbn [elab_list_with] in He. apply bind_ok in He. destruct He as (i & s1 & E1 & He).
       apply bind_ok in He. destruct He as (r' & s2 & E2 & He). inversion He; subst. clear He.
-      destruct (Hy _ _ _ Hi E1) as (I1 & t & -> & Ht). destruct (IH _ _ _ I1 E2) as (I2 & ts & -> & Hts).
+      assert (Hny : forall n, In n (fn y) -> name_agrees R Sc n).
+      { intros n Hin. apply Hn. cbn [flat_map]. apply in_or_app. now left. }
+      assert (Hnr : forall n, In n (flat_map fn r) -> name_agrees R Sc n).
+      { intros n Hin. apply Hn. cbn [flat_map]. apply in_or_app. now right. }
+      destruct (Hy R Sc _ _ _ HF Hny Hi E1) as (I1 & t & -> & Ht). destruct (IH Hnr _ _ _ I1 E2) as (I2 & ts & -> & Hts).
       split; [exact I2|]. exists (t :: ts). split; [reflexivity | now constructor].
   Qed.
 
-  Lemma seval_args I args ts : Forall2 agrees args ts -> wf_interp I ->
-    all_some (map (seval Sg I []) args) = Some (map (eval I) ts).
+  Lemma seval_args R I args ts : Forall2 (agrees R) args ts -> wf_interp I ->
+    all_some (map (seval Sg I (R I)) args) = Some (map (eval I) ts).
   Proof.
-    intros H HI. induction H as [|x t r ts' (_ & _ & Hx) _ IH]; [reflexivity|].
-    cbn [map all_some]. destruct (Hx I HI) as [-> _]. now rewrite IH.
+    intros H HI. induction H as [|x t r ts' (_ & Hx) _ IH]; [reflexivity|].
+    cbn [map all_some]. rewrite (Hx I HI). now rewrite IH.
   Qed.
-  Lemma tcs_bool args ts : Forall2 agrees args ts -> Forall (fun t => tc t = Some TBool) ts.
-  Proof. induction 1 as [|x t r ts' (H & _) _ IH]; constructor; assumption. Qed.
-  Lemma bvals I args ts : Forall2 agrees args ts -> wf_interp I -> Forall (bval I) ts.
-  Proof. induction 1 as [|x t r ts' (_ & _ & H) _ IH]; intros HI; constructor; [apply (H I HI) | now apply IH]. Qed.
+  Lemma tcs_bool R args ts : Forall2 (agrees R) args ts -> Forall (fun t => tc t = Some TBool) ts.
+  Proof. induction 1 as [|x t r ts' ((H & _) & _) _ IH]; constructor; assumption. Qed.
+  Lemma bvals R I args ts : Forall2 (agrees R) args ts -> wf_interp I -> Forall (bval I) ts.
+  Proof. induction 1 as [|x t r ts' ((_ & H & _) & _) _ IH]; intros HI; constructor; [apply (H I HI) | now apply IH]. Qed.
 
   Lemma tc_bool_list o ts : Forall (fun t => tc t = Some TBool) ts ->
     tc (T o ts) = tc_rule o (map (fun _ => TBool) ts).
@@ -103,13 +163,11 @@ Section Core.
     { induction H as [|t r Ht _ IH]; [reflexivity|]. rewrite Ht, IH. reflexivity. }
     now rewrite E.
   Qed.
-  Lemma closed_int_bool t : tc t = Some TBool -> closed_int t = false.
-  Proof. unfold closed_int. now intros ->. Qed.
 
   Lemma forallb_bool_tys (ts : list term) : forallb (fun x => ty_eqb x TBool) (map (fun _ : term => TBool) ts) = true.
   Proof. induction ts; cbn; auto. Qed.
 
-  Lemma F2_length {A B} (R : A -> B -> Prop) l1 l2 : Forall2 R l1 l2 -> List.length l1 = List.length l2.
+  Lemma F2_length {A B} (P : A -> B -> Prop) l1 l2 : Forall2 P l1 l2 -> List.length l1 = List.length l2.
   Proof. induction 1; cbn; congruence. Qed.
 
   Lemma veqb_bools x y : veqb (VBool x) (VBool y) = Bool.eqb x y.
@@ -120,15 +178,19 @@ Section Core.
       apply veqb_true in E2. inversion E2; subst. now rewrite Bool.eqb_reflx in E.
   Qed.
 
-  Lemma seval_app I h args :
+  Lemma seval_app I rho h args :
     String.eqb h "let" = false -> String.eqb h "forall" = false -> String.eqb h "exists" = false ->
     String.eqb h "!" = false -> String.eqb h "_" = false ->
-    seval Sg I [] (SList (Atom h :: args)) =
-    match sym_name h, all_some (map (seval Sg I []) args) with
-    | Some f, Some vs => apply_sym Sg I [] f vs
+    seval Sg I rho (SList (Atom h :: args)) =
+    match sym_name h, all_some (map (seval Sg I rho) args) with
+    | Some f, Some vs => apply_sym Sg I rho f vs
     | _, _ => None
     end.
   Proof. intros H1 H2 H3 H4 H5. cbn [seval]. now rewrite H1, H2, H3, H4, H5. Qed.
+
+  Lemma apply_sym_head I rho h vs : assoc h rho = None ->
+    apply_sym Sg I rho h vs = apply_sym Sg I [] h vs.
+  Proof. intros H. unfold apply_sym. now rewrite H. Qed.
 
   Lemma call_op o ts s i s' : call (IOp o) (map ITerm ts) s = ROk i s' ->
     s' = s /\ exists t, i = ITerm t /\ apply_op o ts = Ok t.
@@ -137,150 +199,670 @@ Section Core.
     intros H; inversion H; subst. eauto.
   Qed.
 
-  Ltac seval_head := rewrite seval_app by reflexivity.
-  Ltac agrees_intro I HI := split; [ | split; [ | intros I HI; split ] ].
+  (* a term that is not a negation *)
+  Lemma good_plain t : tc t = Some TBool -> (forall I, wf_interp I -> bval I t) -> is_not t = false -> good t.
+  Proof. intros H1 H2 H3. split; [exact H1|]. split; [exact H2|]. intros H. congruence. Qed.
 
-  Theorem elab_agrees_core : forall x, core x -> spec x.
+  Lemma head_cases h n : head_arity_ok h n = true ->
+    (h = "and" \/ h = "or") /\ (2 <= n)%nat \/ h = "=>" /\ n = 2%nat \/ h = "=" /\ n = 2%nat \/
+    h = "ite" /\ n = 3%nat \/ h = "not" /\ n = 1%nat.
   Proof.
-    induction x as [a|l IH] using sexp_ind'; intros Hc s i s' Hi He.
-    - (* atoms *)
-      cbn [elab] in He. cbn [core] in Hc. split; [exact (atom_inv D a (pop1 s) i s' Hi He)|].
-      destruct Hc as [->|[->|Hb]].
-      + rewrite (atom_declared D _ _ (pop1 s) Hi D_true) in He. inversion He; subst.
-        exists TTrue. split; [reflexivity|]. agrees_intro J HJ; try reflexivity. exists true; reflexivity.
-      + rewrite (atom_declared D _ _ (pop1 s) Hi D_false) in He. inversion He; subst.
-        exists TFalse. split; [reflexivity|]. agrees_intro J HJ; try reflexivity. exists false; reflexivity.
-      + destruct Hb as (Hp & Hsym & Hn & Hd & Hbv & Hst & Hcst & Hsig & HD).
-        rewrite (atom_declared D _ _ (pop1 s) Hi HD) in He. inversion He; subst.
-        exists (TSym a TBool). split; [reflexivity|]. agrees_intro J HJ; try reflexivity.
-        * cbn [seval]. unfold eval_atom. rewrite Hn, Hd, Hbv, Hst, Hsym. cbn [assoc]. now rewrite Hcst, Hsig.
-        * destruct HJ as [Hs _]. specialize (Hs a TBool Logic.I). cbn in Hs. unfold bval. cbn [eval TSym].
-          destruct (isym J a TBool); try contradiction. eexists; reflexivity.
-    - (* applications *)
-      destruct l as [|[h|?] args]; try contradiction.
-      apply core_app in Hc. destruct Hc as [Hargs Hh].
-      inversion IH as [|? ? _ IHargs]; subst.
-      assert (Hspec : Forall spec args).
-      { rewrite Forall_forall in *. intros y Hy. apply IHargs; [exact Hy | now apply Hargs]. }
-      assert (Happ : app_head h = true).
-      { destruct Hh as [[[->| ->] _]|[[-> _]|[[-> _]|[[-> _]|[-> _]]]]]; reflexivity. }
-      rewrite (elab_app h args s Happ) in He. apply bind_ok in He. destruct He as (hi & s1 & Eh & He).
-      apply bind_ok in He. destruct He as (its & s2 & El & Ec).
-      assert (Hhead : exists o, alookup h interpreted_table = Some (HOp o) /\ hi = IOp o /\ s1 = pop1 (pop1 s)).
-      { unfold elab_head in Eh.
-        destruct Hh as [[[->| ->] _]|[[-> _]|[[-> _]|[[-> _]|[-> _]]]]]; cbn in Eh; inversion Eh; subst;
-          (eexists; split; [reflexivity | split; reflexivity]). }
-      destruct Hhead as (o & Ht & -> & ->).
-      destruct (elab_list_spec args Hspec (pop1 (pop1 s)) its s2 Hi El) as (I2 & ts & -> & Hts).
-      apply call_op in Ec. destruct Ec as (-> & t & -> & Ha).
-      split; [exact I2|]. exists t. split; [reflexivity|].
-      pose proof (tcs_bool _ _ Hts) as Htc. pose proof (F2_length _ _ _ Hts) as Hlen.
-      destruct Hh as [[Hao Hn]|[[-> Hn]|[[-> Hn]|[[-> Hn]|[-> (x0 & -> & Hneg)]]]]].
-      + (* and / or *)
-        destruct ts as [|a [|b r]]; cbn in Hlen; try lia.
-        destruct Hao as [-> | ->]; cbn in Ht; inversion Ht; subst o; cbn [apply_op] in Ha;
-          unfold chk in Ha; cbn [mk_and mk_or] in Ha;
-          rewrite (tc_bool_list _ _ Htc) in Ha; cbn [tc_rule] in Ha; unfold type_to_type in Ha;
-          rewrite forallb_bool_tys in Ha; inversion Ha; subst t.
-        * agrees_intro J HJ; [rewrite (tc_bool_list _ _ Htc); cbn [tc_rule]; unfold type_to_type; now rewrite forallb_bool_tys | reflexivity | |].
-          -- seval_head. change (sym_name "and") with (Some "and"). rewrite (seval_args J _ _ Hts HJ). reflexivity.
-          -- eexists. cbn [eval op_sem]. reflexivity.
-        * agrees_intro J HJ; [rewrite (tc_bool_list _ _ Htc); cbn [tc_rule]; unfold type_to_type; now rewrite forallb_bool_tys | reflexivity | |].
-          -- seval_head. change (sym_name "or") with (Some "or"). rewrite (seval_args J _ _ Hts HJ). reflexivity.
-          -- eexists. cbn [eval op_sem]. reflexivity.
-      + (* => *)
-        destruct ts as [|a [|b [|? ?]]]; cbn in Hlen; try lia. cbn in Ht; inversion Ht; subst o.
-        cbn [apply_op bin] in Ha. unfold chk, mk_implies in Ha.
-        rewrite (tc_bool_list _ _ Htc) in Ha. cbn in Ha. inversion Ha; subst t.
-        agrees_intro J HJ; [rewrite (tc_bool_list _ _ Htc); reflexivity | reflexivity | |].
-        * seval_head. change (sym_name "=>") with (Some "=>"). rewrite (seval_args J _ _ Hts HJ). reflexivity.
-        * eexists. cbn [eval op_sem map]. reflexivity.
-      + (* = on Booleans *)
-        destruct ts as [|a [|b [|? ?]]]; cbn in Hlen; try lia. cbn in Ht; inversion Ht; subst o.
-        inversion Htc as [|? ? Hta Htc']; subst. inversion Htc' as [|? ? Htb _]; subst.
-        cbn [apply_op bin] in Ha. unfold is_bool_t in Ha. rewrite Hta in Ha. unfold chk, mk_iff in Ha.
-        rewrite (tc_bool_list _ _ Htc) in Ha. cbn in Ha. inversion Ha; subst t.
-        agrees_intro J HJ; [rewrite (tc_bool_list _ _ Htc); reflexivity | reflexivity | |].
-        * seval_head. change (sym_name "=") with (Some "="). rewrite (seval_args J _ _ Hts HJ).
-          pose proof (bvals J _ _ Hts HJ) as Hb. inversion Hb as [|? ? [x Hx] Hb']; subst.
-          inversion Hb' as [|? ? [y Hy] _]; subst.
-          cbn [map eval op_sem]. cbn. rewrite Hx, Hy. cbn. rewrite veqb_bools. now rewrite andb_true_r.
-        * eexists. cbn [eval op_sem map]. reflexivity.
-      + (* ite *)
-        destruct ts as [|c [|a [|b [|? ?]]]]; cbn in Hlen; try lia. cbn in Ht; inversion Ht; subst o.
-        cbn [apply_op] in Ha.
-        assert (Hfirst : tern (fun c a b => chk (mk_ite c a b)) [c; a; b] = Ok (T OIte [c; a; b])).
-        { cbn [tern]. unfold chk, mk_ite. rewrite (tc_bool_list _ _ Htc). reflexivity. }
-        rewrite (fix_real_ok _ _ _ Hfirst) in Ha. inversion Ha; subst t.
-        agrees_intro J HJ; [rewrite (tc_bool_list _ _ Htc); reflexivity | reflexivity | |].
-        * seval_head. change (sym_name "ite") with (Some "ite"). rewrite (seval_args J _ _ Hts HJ). reflexivity.
-        * pose proof (bvals J _ _ Hts HJ) as Hb. inversion Hb as [|? ? _ Hb']; subst.
-          inversion Hb' as [|? ? Hba Hb'']; subst. inversion Hb'' as [|? ? Hbb _]; subst.
-          unfold bval. cbn [eval op_sem map]. destruct (vbool (eval J c)); assumption.
-      + (* not *)
-        destruct ts as [|a [|? ?]]; cbn in Hlen; try lia. cbn in Ht; inversion Ht; subst o.
-        inversion Hts as [|? ? ? ? (Hta & Hnn & _) _]; subst.
-        cbn [apply_op un] in Ha. rewrite (Hnn Hneg) in Ha. unfold chk in Ha.
-        rewrite (tc_bool_list _ _ Htc) in Ha. cbn in Ha. inversion Ha; subst t.
-        agrees_intro J HJ; [rewrite (tc_bool_list _ _ Htc); reflexivity | intros Hx; discriminate Hx | |].
-        * seval_head. change (sym_name "not") with (Some "not"). rewrite (seval_args J _ _ Hts HJ). reflexivity.
-        * eexists. cbn [eval op_sem map]. reflexivity.
+    unfold head_arity_ok. intros H.
+    destruct (String.eqb_spec h "and") as [->|]; [left; split; [now left | now apply Nat.leb_le]|].
+    destruct (String.eqb_spec h "or") as [->|]; [left; split; [now right | now apply Nat.leb_le]|].
+    cbn [orb] in H.
+    destruct (String.eqb_spec h "=>") as [->|]; [right; left; split; [reflexivity | now apply Nat.eqb_eq]|].
+    destruct (String.eqb_spec h "=") as [->|]; [right; right; left; split; [reflexivity | now apply Nat.eqb_eq]|].
+    cbn [orb] in H.
+    destruct (String.eqb_spec h "ite") as [->|]; [right; right; right; left; split; [reflexivity | now apply Nat.eqb_eq]|].
+    destruct (String.eqb_spec h "not") as [->|]; [right; right; right; right; split; [reflexivity | now apply Nat.eqb_eq]|].
+    discriminate H.
+  Qed.
+
+  Ltac agrees_intro I HI := split; [ | intros I HI ].
+
+  Lemma app_agrees h args : String.eqb h "let" = false ->
+    head_arity_ok h (List.length args) = true -> Forall spec args -> spec (SList (Atom h :: args)).
+  Proof.
+    intros Hlet Hh Hspec R Sc s i s' HF Hn Hi He.
+    apply head_cases in Hh.
+    assert (Hfn : forall n, In n (flat_map fn args) -> name_agrees R Sc n).
+    { intros n Hin. apply Hn. cbn [fn]. now rewrite Hlet. }
+    assert (Happ : app_head h = true).
+    { destruct Hh as [[[->| ->] _]|[[-> _]|[[-> _]|[[-> _]|[-> _]]]]]; reflexivity. }
+    assert (Hhf : forall I, assoc h (R I) = None).
+    { intros I. apply HF. unfold core_heads. destruct Hh as [[[->| ->] _]|[[-> _]|[[-> _]|[[-> _]|[-> _]]]]]; cbn; tauto. }
+    rewrite (elab_app h args s Happ) in He. apply bind_ok in He. destruct He as (hi & s1 & Eh & He).
+    apply bind_ok in He. destruct He as (its & s2 & El & Ec).
+    assert (Hhead : exists o, alookup h interpreted_table = Some (HOp o) /\ hi = IOp o /\ s1 = pop1 (pop1 s)).
+    { unfold elab_head in Eh.
+      destruct Hh as [[[->| ->] _]|[[-> _]|[[-> _]|[[-> _]|[-> _]]]]]; cbn in Eh; inversion Eh; subst;
+        (eexists; split; [reflexivity | split; reflexivity]). }
+    destruct Hhead as (o & Ht & -> & ->).
+    destruct (elab_list_spec R Sc args HF Hspec Hfn (pop1 (pop1 s)) its s2 Hi El) as (I2 & ts & -> & Hts).
+    apply call_op in Ec. destruct Ec as (-> & t & -> & Ha).
+    split; [exact I2|]. exists t. split; [reflexivity|].
+    pose proof (tcs_bool _ _ _ Hts) as Htc. pose proof (F2_length _ _ _ Hts) as Hlen.
+    assert (Hsev : forall J, wf_interp J ->
+              seval Sg J (R J) (SList (Atom h :: args)) =
+              match sym_name h with Some f => apply_sym Sg J [] f (map (eval J) ts) | None => None end).
+    { intros J HJ. rewrite seval_app;
+        [|destruct Hh as [[[->| ->] _]|[[-> _]|[[-> _]|[[-> _]|[-> _]]]]]; reflexivity ..].
+      rewrite (seval_args R J _ _ Hts HJ).
+      assert (Hs : sym_name h = Some h)
+        by (destruct Hh as [[[->| ->] _]|[[-> _]|[[-> _]|[[-> _]|[-> _]]]]]; reflexivity).
+      rewrite Hs. apply apply_sym_head. apply Hhf. }
+    destruct Hh as [[Hao Hnn]|[[-> Hnn]|[[-> Hnn]|[[-> Hnn]|[-> Hnn]]]]].
+    - (* and / or *)
+      destruct ts as [|a [|b r]]; cbn in Hlen; try lia.
+      destruct Hao as [-> | ->]; cbn in Ht; inversion Ht; subst o; cbn [apply_op] in Ha;
+        unfold chk in Ha; cbn [mk_and mk_or] in Ha;
+        rewrite (tc_bool_list _ _ Htc) in Ha; cbn [tc_rule] in Ha; unfold type_to_type in Ha;
+        rewrite forallb_bool_tys in Ha; inversion Ha; subst t.
+      + agrees_intro J HJ.
+        * apply good_plain; [rewrite (tc_bool_list _ _ Htc); cbn [tc_rule]; unfold type_to_type; now rewrite forallb_bool_tys | | reflexivity].
+          intros J HJ. eexists. cbn [eval op_sem]. reflexivity.
+        * rewrite (Hsev J HJ). reflexivity.
+      + agrees_intro J HJ.
+        * apply good_plain; [rewrite (tc_bool_list _ _ Htc); cbn [tc_rule]; unfold type_to_type; now rewrite forallb_bool_tys | | reflexivity].
+          intros J HJ. eexists. cbn [eval op_sem]. reflexivity.
+        * rewrite (Hsev J HJ). reflexivity.
+    - (* => *)
+      destruct ts as [|a [|b [|? ?]]]; cbn in Hlen; try lia. cbn in Ht; inversion Ht; subst o.
+      cbn [apply_op bin] in Ha. unfold chk, mk_implies in Ha.
+      rewrite (tc_bool_list _ _ Htc) in Ha. cbn in Ha. inversion Ha; subst t.
+      agrees_intro J HJ.
+      + apply good_plain; [rewrite (tc_bool_list _ _ Htc); reflexivity | | reflexivity].
+        intros J HJ. eexists. cbn [eval op_sem map]. reflexivity.
+      + rewrite (Hsev J HJ). reflexivity.
+    - (* = on Booleans *)
+      destruct ts as [|a [|b [|? ?]]]; cbn in Hlen; try lia. cbn in Ht; inversion Ht; subst o.
+      inversion Htc as [|? ? Hta Htc']; subst. inversion Htc' as [|? ? Htb _]; subst.
+      cbn [apply_op bin] in Ha. unfold is_bool_t in Ha. rewrite Hta in Ha. unfold chk, mk_iff in Ha.
+      rewrite (tc_bool_list _ _ Htc) in Ha. cbn in Ha. inversion Ha; subst t.
+      agrees_intro J HJ.
+      + apply good_plain; [rewrite (tc_bool_list _ _ Htc); reflexivity | | reflexivity].
+        intros J HJ. eexists. cbn [eval op_sem map]. reflexivity.
+      + rewrite (Hsev J HJ). change (sym_name "=") with (Some "=").
+        pose proof (bvals R J _ _ Hts HJ) as Hb. inversion Hb as [|? ? [x Hx] Hb']; subst.
+        inversion Hb' as [|? ? [y Hy] _]; subst.
+        cbn [map eval op_sem]. cbn. rewrite Hx, Hy. cbn. rewrite veqb_bools. now rewrite andb_true_r.
+    - (* ite *)
+      destruct ts as [|c [|a [|b [|? ?]]]]; cbn in Hlen; try lia. cbn in Ht; inversion Ht; subst o.
+      cbn [apply_op] in Ha.
+      assert (Hfirst : tern (fun c a b => chk (mk_ite c a b)) [c; a; b] = Ok (T OIte [c; a; b])).
+      { cbn [tern]. unfold chk, mk_ite. rewrite (tc_bool_list _ _ Htc). reflexivity. }
+      rewrite (fix_real_ok _ _ _ Hfirst) in Ha. inversion Ha; subst t.
+      agrees_intro J HJ.
+      + apply good_plain; [rewrite (tc_bool_list _ _ Htc); reflexivity | | reflexivity].
+        intros J HJ. pose proof (bvals R J _ _ Hts HJ) as Hb. inversion Hb as [|? ? _ Hb']; subst.
+        inversion Hb' as [|? ? Hba Hb'']; subst. inversion Hb'' as [|? ? Hbb _]; subst.
+        unfold bval. cbn [eval op_sem map]. destruct (vbool (eval J c)); assumption.
+      + rewrite (Hsev J HJ). reflexivity.
+    - (* not: Not(Not(b)) is b *)
+      destruct ts as [|a [|? ?]]; cbn in Hlen; try lia. cbn in Ht; inversion Ht; subst o.
+      inversion Hts as [|? ? ? ? ((Hta & Hba & Hna) & Hsa) _]; subst.
+      cbn [apply_op un] in Ha. destruct (is_not a) eqn:Hnot.
+      + destruct (Hna eq_refl) as (b & -> & Hnb & Htb & Hbb). cbn [arg targs nth] in Ha. inversion Ha; subst t.
+        agrees_intro J HJ.
+        * apply good_plain; assumption.
+        * rewrite (Hsev J HJ). destruct (Hbb J HJ) as [y Hy].
+          change (sym_name "not") with (Some "not"). cbn [map eval op_sem]. rewrite Hy. cbn.
+          now rewrite negb_involutive.
+      + unfold chk in Ha. rewrite (tc_bool_list _ _ Htc) in Ha. cbn in Ha. inversion Ha; subst t.
+        agrees_intro J HJ.
+        * split; [rewrite (tc_bool_list _ _ Htc); reflexivity|]. split.
+          -- intros J HJ. eexists. cbn [eval op_sem map]. reflexivity.
+          -- intros _. exists a. split; [reflexivity|]. split; [exact Hnot|]. split; assumption.
+        * rewrite (Hsev J HJ). reflexivity.
+  Qed.
+
+  (* ---- atoms ---- *)
+  Lemma atom_agrees a : spec (Atom a).
+  Proof.
+    intros R Sc s i s' HF Hn Hi He. cbn [elab] in He.
+    destruct (Hn a (or_introl eq_refl)) as (Hpl & tau & Hhd & Hg & Hev).
+    rewrite (atom_scope Sc (pop1 s) a _ Hi Hhd) in He. inversion He; subst.
+    split; [exact Hi|]. exists tau. split; [reflexivity|]. split; [exact Hg|].
+    intros I HI. cbn [seval]. now apply Hev.
+  Qed.
+
+  (* ---- let: environments ---- *)
+  Lemma mem_str_false n l : mem_str n l = false -> ~ In n l.
+  Proof.
+    unfold mem_str. intros H Hin. assert (E : existsb (String.eqb n) l = true); [|congruence].
+    apply existsb_exists. exists n. split; [exact Hin | apply String.eqb_refl].
+  Qed.
+  Lemma str_in_In n l : str_in n l = true <-> In n l.
+  Proof.
+    unfold str_in. rewrite existsb_exists. split.
+    - intros (y & Hy & E). apply String.eqb_eq in E. now subst.
+    - intros H. exists n. split; [exact H | apply String.eqb_refl].
+  Qed.
+  Lemma str_in_false n l : str_in n l = false -> ~ In n l.
+  Proof. intros H Hin. apply str_in_In in Hin. congruence. Qed.
+
+  Lemma bind_env_out : forall ns vs rho n, ~ In n ns -> assoc n (bind_env rho ns vs) = assoc n rho.
+  Proof.
+    induction ns as [|m ns IH]; intros [|v vs] rho n H; cbn [bind_env]; try reflexivity.
+    rewrite IH by (intros Hin; apply H; now right). cbn [assoc].
+    destruct (String.eqb_spec n m) as [->|]; [exfalso; apply H; now left | reflexivity].
+  Qed.
+  Lemma bind_env_in : forall ns vs rho n v, nodup_str ns = true ->
+    In (n, v) (combine ns vs) -> assoc n (bind_env rho ns vs) = Some v.
+  Proof.
+    induction ns as [|m ns IH]; intros [|w vs] rho n v Hnd Hin; cbn [combine] in Hin; try contradiction.
+    cbn [nodup_str] in Hnd. apply andb_true_iff in Hnd. destruct Hnd as [Hm Hnd]. apply negb_true_iff in Hm.
+    cbn [bind_env]. destruct Hin as [E|Hin].
+    - inversion E; subst. rewrite bind_env_out by (now apply mem_str_false). cbn [assoc]. now rewrite String.eqb_refl.
+    - now apply IH.
+  Qed.
+
+  Lemma eval_atom_plain I rho a : plain_name a = true ->
+    eval_atom Sg I rho a =
+    match assoc a rho with
+    | Some v => Some v
+    | None => eval_atom Sg I [] a
+    end.
+  Proof.
+    intros H. destruct (plain_name_inv a H) as (_ & Hs & H1 & H2 & H3 & H4).
+    unfold eval_atom. rewrite H1, H2, H3, H4, Hs. cbn [assoc]. destruct (assoc a rho); reflexivity.
+  Qed.
+
+  (* ---- let: the cache ---- *)
+  Definition push (Sc : scope) (n : string) (x : item) : scope :=
+    fun k => if String.eqb k n then x :: Sc n else Sc k.
+  Lemma st_ok_bind Sc s n x : st_ok Sc s -> st_ok (push Sc n x) (cache_bind n x s).
+  Proof.
+    intros (A & B & C). split; [exact A|]. split; [exact B|]. intros k. rewrite stack_of_bind. unfold push.
+    destruct (k =? n); now rewrite C.
+  Qed.
+  Lemma st_ok_unbind Sc s n x l : st_ok Sc s -> Sc n = x :: l ->
+    exists s', cache_unbind n s = ROk tt s' /\ toks s' = toks s /\
+               st_ok (fun k => if String.eqb k n then l else Sc k) s'.
+  Proof.
+    intros (A & B & C) H. rewrite <- C in H.
+    destruct (cache_unbind_stack n s x l H) as (s' & E & D' & L' & T' & S').
+    exists s'. split; [exact E|]. split; [exact T'|]. split; [congruence|]. split; [congruence|].
+    intros k. rewrite S'. destruct (k =? n); [reflexivity | apply C].
+  Qed.
+
+  Lemma alookup_notin {A} n (l : list (string * A)) : ~ In n (map fst l) -> alookup n l = None.
+  Proof.
+    induction l as [|[k v] r IH]; intros H; [reflexivity|]. cbn [alookup].
+    destruct (String.eqb_spec n k) as [->|]; [exfalso; apply H; now left|]. apply IH. intros Hin. apply H. now right.
+  Qed.
+  Lemma alookup_in_some {A} n (v : A) l : In (n, v) l -> exists w, alookup n l = Some w.
+  Proof.
+    induction l as [|[k x] r IH]; intros H; [contradiction|]. cbn [alookup].
+    destruct (String.eqb_spec n k) as [->|Hne]; [eauto|]. destruct H as [E|H]; [|now apply IH].
+    inversion E; subst. congruence.
+  Qed.
+
+  Lemma nodup_cons_inv v l : nodup_str (v :: l) = true -> ~ In v l /\ nodup_str l = true.
+  Proof.
+    cbn [nodup_str]. intros H. apply andb_true_iff in H. destruct H as [H1 H2]. apply negb_true_iff in H1.
+    split; [now apply mem_str_false | exact H2].
+  Qed.
+
+  (* after the last binding: every name is bound to its value (an early binding is replaced) *)
+  Lemma let_finish_scope early : forall r Sc s, nodup_str (map fst r) = true -> st_ok Sc s ->
+    (forall v e, In (v, e) r -> str_in v early = true -> exists x, Sc v = [x]) ->
+    exists s', let_finish r early s = ROk tt s' /\ toks s' = toks s /\
+      st_ok (fun n => match alookup n r with
+                      | Some e => e :: (if str_in n early then [] else Sc n)
+                      | None => Sc n
+                      end) s'.
+  Proof.
+    induction r as [|[v e] r IH]; intros Sc s Hnd Hs He.
+    - exists s. split; [reflexivity|]. split; [reflexivity|]. exact Hs.
+    - cbn [map fst] in Hnd. apply nodup_cons_inv in Hnd. destruct Hnd as [Hv Hnd].
+      cbn [let_finish].
+      assert (Hstep : exists s1 Sc1, (if str_in v early then cache_unbind v s else ROk tt s) = ROk tt s1 /\
+                        toks s1 = toks s /\ st_ok Sc1 s1 /\
+                        (forall k, Sc1 k = if String.eqb k v then (if str_in v early then [] else Sc v) else Sc k)).
+      { destruct (str_in v early) eqn:Ev.
+        - destruct (He v e (or_introl eq_refl) Ev) as [x Hx].
+          destruct (st_ok_unbind Sc s v x [] Hs Hx) as (s1 & E1 & T1 & S1).
+          exists s1, (fun k => if String.eqb k v then [] else Sc k). split; [exact E1|]. split; [exact T1|].
+          split; [exact S1 | reflexivity].
+        - exists s, Sc. split; [reflexivity|]. split; [reflexivity|]. split; [exact Hs|].
+          intros k. destruct (String.eqb_spec k v) as [->|]; reflexivity. }
+      destruct Hstep as (s1 & Sc1 & E1 & T1 & S1 & H1). rewrite E1. cbn [bind].
+      destruct (IH (push Sc1 v e) (cache_bind v e s1) Hnd (st_ok_bind Sc1 s1 v e S1)) as (s' & E' & T' & S').
+      { intros v' e' Hin Hev. assert (Hne : v' <> v).
+        { intros ->. apply Hv. apply in_map_iff. exists (v, e'). now split. }
+        unfold push. apply String.eqb_neq in Hne. rewrite Hne, H1, Hne. apply (He v' e'); [now right | exact Hev]. }
+      exists s'. split; [exact E'|]. split; [rewrite T'; exact T1|].
+      eapply st_ok_ext; [|exact S']. intros n. cbn beta. cbn [alookup]. unfold push.
+      destruct (String.eqb_spec n v) as [->|Hne].
+      + rewrite (alookup_notin v r Hv). rewrite H1, String.eqb_refl. reflexivity.
+      + rewrite H1. apply String.eqb_neq in Hne. rewrite Hne. reflexivity.
+  Qed.
+
+  (* leaving the let *)
+  Lemma unbind_all_scope : forall ns Sc s, nodup_str ns = true -> st_ok Sc s ->
+    (forall n, In n ns -> Sc n <> []) ->
+    exists s', unbind_all ns s = ROk tt s' /\ toks s' = toks s /\
+               st_ok (fun k => if str_in k ns then tl (Sc k) else Sc k) s'.
+  Proof.
+    induction ns as [|n ns IH]; intros Sc s Hnd Hs Hne.
+    - exists s. split; [reflexivity|]. split; [reflexivity|]. exact Hs.
+    - apply nodup_cons_inv in Hnd. destruct Hnd as [Hn Hnd].
+      destruct (Sc n) as [|x l] eqn:En; [exfalso; exact (Hne n (or_introl eq_refl) En)|].
+      destruct (st_ok_unbind Sc s n x l Hs En) as (s1 & E1 & T1 & S1).
+      cbn [unbind_all]. rewrite E1. cbn [bind].
+      destruct (IH _ s1 Hnd S1) as (s' & E' & T' & S').
+      { intros m Hm. cbn beta. destruct (String.eqb_spec m n) as [->|]; [contradiction|]. apply Hne. now right. }
+      exists s'. split; [exact E'|]. split; [rewrite T'; exact T1|].
+      eapply st_ok_ext; [|exact S']. intros k. cbn beta. cbn [str_in existsb].
+      destruct (String.eqb_spec k n) as [->|Hkn].
+      + cbn [orb]. assert (Hf : str_in n ns = false).
+        { destruct (str_in n ns) eqn:E; [|reflexivity]. apply str_in_In in E. contradiction. }
+        rewrite Hf, En. reflexivity.
+      + cbn [orb]. reflexivity.
+  Qed.
+
+  (* ---- let: the loop over the bindings ---- *)
+  Definition vals_of (done : list (string * term)) : list (string * item) :=
+    map (fun p => (fst p, ITerm (snd p))) done.
+  Definition bval_of (b : sexp) : sexp := match b with SList [_; val] => val | _ => Atom "" end.
+  Definition binding_ok (b : sexp) : Prop :=
+    exists v val, b = SList [Atom v; val] /\ let_name v = true /\ spec val.
+  Definition bfn (bs : list sexp) : list string :=
+    flat_map (fun b => match b with SList [_; val] => fn val | _ => [] end) bs.
+  (* the stacks while the bindings are read: the early names are bound already *)
+  Definition mid_scope (Sc : scope) (vals : list (string * item)) (early : list string) : scope :=
+    fun n => if str_in n early then match alookup n vals with Some e => [e] | None => [] end else Sc n.
+
+  Lemma map_fst_vals done : map fst (vals_of done) = map fst done.
+  Proof. unfold vals_of. rewrite map_map. reflexivity. Qed.
+  Lemma aset_new {A} k (v : A) l : ~ In k (map fst l) -> aset k v l = l ++ [(k, v)].
+  Proof.
+    induction l as [|[k' v'] r IH]; intros H; [reflexivity|]. cbn [aset].
+    destruct (String.eqb_spec k k') as [->|]; [exfalso; apply H; now left|].
+    cbn [app]. f_equal. apply IH. intros Hin. apply H. now right.
+  Qed.
+  Lemma alookup_app_l {A} k (l1 l2 : list (string * A)) w : alookup k l1 = Some w -> alookup k (l1 ++ l2) = Some w.
+  Proof. induction l1 as [|[k' v] r IH]; cbn; [discriminate|]. destruct (k =? k'); auto. Qed.
+  Lemma alookup_app_r {A} k (l1 l2 : list (string * A)) : alookup k l1 = None -> alookup k (l1 ++ l2) = alookup k l2.
+  Proof. induction l1 as [|[k' v] r IH]; cbn; [reflexivity|]. destruct (k =? k'); [discriminate | exact IH]. Qed.
+
+  Lemma name_agrees_scope R Sc Sc' n : Sc' n = Sc n -> name_agrees R Sc n -> name_agrees R Sc' n.
+  Proof. intros E (Hp & tau & H & G). split; [exact Hp|]. exists tau. now rewrite E. Qed.
+
+  Lemma nodup_app_l a b : nodup_str (a ++ b) = true -> nodup_str a = true.
+  Proof.
+    induction a as [|x r IH]; intros H; [reflexivity|]. cbn [app nodup_str] in *.
+    apply andb_true_iff in H. destruct H as [H1 H2]. apply andb_true_iff. split; [|now apply IH].
+    apply negb_true_iff. apply negb_true_iff in H1. unfold mem_str in *. rewrite existsb_app in H1.
+    now apply orb_false_iff in H1.
+  Qed.
+  Lemma nodup_app_notin a x b : nodup_str (a ++ x :: b) = true -> ~ In x a.
+  Proof.
+    induction a as [|y r IH]; intros H; [intros []|]. cbn [app nodup_str] in H.
+    apply andb_true_iff in H. destruct H as [H1 H2]. apply negb_true_iff in H1. apply mem_str_false in H1.
+    intros [->|Hin]; [apply H1; apply in_or_app; right; now left | exact (IH H2 Hin)].
+  Qed.
+
+  Lemma bindings_spec R Sc : heads_free R -> forall bs, Forall binding_ok bs ->
+    forall (done : list (string * term)) early st names sb,
+      (forall n, In n (bfn bs) -> name_agrees R Sc n) ->
+      nodup_str (map fst done ++ map bname bs) = true ->
+      (forall n, str_in n early = true -> Sc n = [] /\ In n (map fst done)) ->
+      st_ok (mid_scope Sc (vals_of done) early) st ->
+      elab_bindings bs (vals_of done) early st = ROk names sb ->
+      exists more,
+        names = map fst (done ++ more) /\ map fst more = map bname bs /\
+        Forall2 (fun b p => agrees R (bval_of b) (snd p)) bs more /\
+        st_ok (fun n => match alookup n (vals_of (done ++ more)) with Some e => e :: Sc n | None => Sc n end) sb.
+  Proof.
+    intros HF. induction 1 as [|b bs Hb _ IH]; intros done early st names sb Hn Hnd Hearly Hst He.
+    - (* the end of the binding list *)
+      cbn [elab_bindings elab_bindings_with] in He. apply bind_ok in He. destruct He as (u & st1 & Ef & He).
+      inversion He; subst. clear He. destruct u.
+      cbn [map bname app] in Hnd. rewrite app_nil_r in Hnd.
+      destruct (let_finish_scope early (vals_of done) (mid_scope Sc (vals_of done) early) (pop1 st)) as (s' & E' & _ & S');
+        [now rewrite map_fst_vals | exact Hst | |].
+      { intros v e Hin Hev. unfold mid_scope. rewrite Hev.
+        destruct (alookup_in_some v e _ Hin) as [w ->]. eauto. }
+      rewrite E' in Ef. inversion Ef; subst s'. exists []. rewrite app_nil_r.
+      split; [now rewrite map_fst_vals|]. split; [reflexivity|]. split; [constructor|].
+      eapply st_ok_ext; [|exact S']. intros n. cbn beta. unfold mid_scope.
+      destruct (alookup n (vals_of done)) as [e|] eqn:El.
+      + destruct (str_in n early) eqn:Ee; [|reflexivity]. now rewrite (proj1 (Hearly n Ee)).
+      + destruct (str_in n early) eqn:Ee; [|reflexivity]. exfalso.
+        destruct (Hearly n Ee) as [_ Hin]. rewrite <- map_fst_vals in Hin.
+        apply in_map_iff in Hin. destruct Hin as ([k e] & Ek & Hin). cbn [fst] in Ek. subst k.
+        destruct (alookup_in_some n e _ Hin) as [w Hw]. congruence.
+    - (* one binding *)
+      destruct Hb as (v & val & -> & Hlet & Hval).
+      cbn [elab_bindings elab_bindings_with] in He. apply bind_ok in He. destruct He as (e & sb2 & Ev & He). cbv zeta in He.
+      fold (elab_bindings bs) in He.
+      cbn [map bname] in Hnd.
+      pose proof (nodup_app_notin _ _ _ Hnd) as Hvdone.
+      (* the bound term, read in the outer scope *)
+      assert (Hnot_early : forall n, name_agrees R Sc n -> str_in n early = false).
+      { intros n (_ & tau & Hhd & _). destruct (str_in n early) eqn:Ee; [|reflexivity].
+        rewrite (proj1 (Hearly n Ee)) in Hhd. discriminate Hhd. }
+      assert (Hnv : forall n, In n (fn val) -> name_agrees R (mid_scope Sc (vals_of done) early) n).
+      { intros n Hin. assert (Ha : name_agrees R Sc n) by (apply Hn; unfold bfn; cbn [flat_map]; apply in_or_app; now left).
+        apply (name_agrees_scope R Sc); [|exact Ha]. unfold mid_scope. now rewrite (Hnot_early n Ha). }
+      destruct (Hval R _ (pop1 (pop1 st)) _ _ HF Hnv Hst Ev) as (S2 & tau & -> & Hag).
+      (* early or not *)
+      assert (Hv_early : str_in v early = false).
+      { destruct (str_in v early) eqn:Ee; [|reflexivity]. exfalso. exact (Hvdone (proj2 (Hearly v Ee))). }
+      assert (Hvals_v : ~ In v (map fst (vals_of done))) by (now rewrite map_fst_vals).
+      rewrite (aset_new v (ITerm tau) (vals_of done) Hvals_v) in He.
+      change (vals_of done ++ [(v, ITerm tau)]) with (vals_of done ++ vals_of [(v, tau)]) in He.
+      unfold vals_of in He. rewrite <- map_app in He. fold (vals_of (done ++ [(v, tau)])) in He.
+      set (is_early := let_early v (vals_of done) sb2) in *.
+      set (early' := if is_early then v :: early else early) in *.
+      set (sb3 := if is_early then cache_bind v (ITerm tau) sb2 else sb2) in *.
+      assert (His : is_early = true -> Sc v = []).
+      { unfold is_early, let_early. intros H. apply andb_true_iff in H. destruct H as [_ H].
+        rewrite (cache_get_scope _ sb2 v S2) in H. unfold mid_scope in H. rewrite Hv_early in H.
+        destruct (Sc v); [reflexivity | discriminate H]. }
+      assert (Hnis : is_early = false -> Sc v <> []).
+      { unfold is_early, let_early. intros H. apply andb_false_iff in H. destruct H as [H|H].
+        - apply negb_false_iff in H. apply str_in_In in H. contradiction.
+        - rewrite (cache_get_scope _ sb2 v S2) in H. unfold mid_scope in H. rewrite Hv_early in H.
+          destruct (Sc v); [discriminate H | discriminate]. }
+      assert (S3 : st_ok (mid_scope Sc (vals_of (done ++ [(v, tau)])) early') (pop1 sb3)).
+      { assert (Hlk : forall k, k <> v -> alookup k (vals_of (done ++ [(v, tau)])) = alookup k (vals_of done)).
+        { intros k Hk. unfold vals_of. rewrite map_app. fold (vals_of done).
+          destruct (alookup k (vals_of done)) as [w|] eqn:E; [now apply alookup_app_l|].
+          rewrite alookup_app_r by exact E. cbn. apply String.eqb_neq in Hk. now rewrite Hk. }
+        unfold sb3, early'. destruct is_early eqn:Eis.
+        - apply (st_ok_ext (push (mid_scope Sc (vals_of done) early) v (ITerm tau))); [|exact (st_ok_bind _ sb2 v _ S2)].
+          intros k. unfold push, mid_scope. cbn [str_in existsb].
+          destruct (String.eqb_spec k v) as [->|Hk].
+          + cbn [orb]. fold (str_in v early). rewrite Hv_early, (His eq_refl).
+            unfold vals_of. rewrite map_app. fold (vals_of done).
+            rewrite alookup_app_r by (apply alookup_notin; exact Hvals_v). cbn. now rewrite String.eqb_refl.
+          + cbn [orb]. fold (str_in k early). now rewrite (Hlk k Hk).
+        - eapply st_ok_ext; [|exact S2]. intros k. unfold mid_scope.
+          destruct (String.eqb_spec k v) as [->|Hk]; [now rewrite Hv_early | now rewrite (Hlk k Hk)]. }
+      assert (Hearly' : forall n, str_in n early' = true -> Sc n = [] /\ In n (map fst (done ++ [(v, tau)]))).
+      { intros n Hin. rewrite map_app. cbn [map fst]. unfold early' in Hin. destruct is_early eqn:Eis.
+        - cbn [str_in existsb] in Hin. apply orb_true_iff in Hin. destruct Hin as [E|Hin].
+          + apply String.eqb_eq in E. subst n. split; [now apply His|]. apply in_or_app. right. now left.
+          + destruct (Hearly n Hin) as [A B]. split; [exact A|]. apply in_or_app. now left.
+        - destruct (Hearly n Hin) as [A B]. split; [exact A|]. apply in_or_app. now left. }
+      assert (Hnd' : nodup_str (map fst (done ++ [(v, tau)]) ++ map bname bs) = true).
+      { rewrite map_app. cbn [map fst]. rewrite <- app_assoc. exact Hnd. }
+      assert (Hn' : forall n, In n (bfn bs) -> name_agrees R Sc n).
+      { intros n Hin. apply Hn. unfold bfn. cbn [flat_map]. apply in_or_app. now right. }
+      destruct (IH (done ++ [(v, tau)]) early' (pop1 sb3) names sb Hn' Hnd' Hearly' S3 He) as (more & Hnames & Hmf & Hfa & Hsb).
+      exists ((v, tau) :: more). rewrite <- app_assoc in Hnames, Hsb. cbn [app] in Hnames, Hsb.
+      split; [exact Hnames|]. split; [cbn [map fst bname]; now rewrite Hmf|]. split; [|exact Hsb].
+      constructor; [exact Hag | exact Hfa].
+  Qed.
+
+  (* ---- let: the standard's side ---- *)
+  Lemma names_all_some bs : Forall binding_ok bs ->
+    SmtStd.all_some (map (fun b => match b with SList [Atom x; _] => sym_name x | _ => None end) bs) = Some (map bname bs).
+  Proof.
+    induction 1 as [|b r (v & val & -> & Hl & _) _ IH]; [reflexivity|]. cbn [map SmtStd.all_some bname].
+    unfold let_name in Hl. apply andb_true_iff in Hl. destruct Hl as [Hl _].
+    destruct (plain_name_inv v Hl) as (_ & -> & _). now rewrite IH.
+  Qed.
+  Lemma vals_all_some R I bs (more : list (string * term)) : wf_interp I ->
+    Forall2 (fun b p => agrees R (bval_of b) (snd p)) bs more -> Forall binding_ok bs ->
+    SmtStd.all_some (map (fun b => match b with SList [_; e] => seval Sg I (R I) e | _ => None end) bs) =
+    Some (map (eval I) (map snd more)).
+  Proof.
+    intros HI H. induction H as [|b p r more' Hb _ IH]; intros Hok; [reflexivity|].
+    inversion Hok as [|? ? (v & val & -> & _ & _) Hok']; subst. cbn [map SmtStd.all_some bval_of] in *.
+    rewrite (proj2 Hb I HI). now rewrite (IH Hok').
+  Qed.
+  Lemma in_combine_done (done : list (string * term)) I n tau :
+    In (n, tau) done -> In (n, eval I tau) (combine (map fst done) (map (eval I) (map snd done))).
+  Proof.
+    induction done as [|[k t] r IH]; intros H; [contradiction|]. cbn [map fst snd combine].
+    destruct H as [E|H]; [inversion E; now left | right; now apply IH].
+  Qed.
+  Lemma alookup_vals_in done n : In n (map fst done) ->
+    exists tau, alookup n (vals_of done) = Some (ITerm tau) /\ In (n, tau) done.
+  Proof.
+    induction done as [|[k t] r IH]; intros H; [contradiction|]. cbn [vals_of map alookup fst snd].
+    destruct (String.eqb_spec n k) as [->|Hne]; [exists t; split; [reflexivity | now left]|].
+    destruct H as [E|H]; [cbn in E; congruence|]. destruct (IH H) as (tau & A & B). exists tau. split; [exact A | now right].
+  Qed.
+
+  Lemma let_agrees b0 bs body :
+    Forall binding_ok (b0 :: bs) -> nodup_str (map bname (b0 :: bs)) = true -> spec body ->
+    spec (SList [Atom "let"; SList (b0 :: bs); body]).
+  Proof.
+    intros Hbs Hnd Hbody R Sc s i s' HF Hn Hi He.
+    set (bl := b0 :: bs) in *.
+    unfold bl in He. rewrite (elab_let "let" b0 bs body s eq_refl) in He. fold bl in He.
+    apply bind_ok in He. destruct He as (names & sb & Eb & He).
+    apply bind_ok in He. destruct He as (b & s2 & Ebody & Ec).
+    assert (Hfn_b : forall n, In n (bfn bl) -> name_agrees R Sc n).
+    { intros n Hin. apply Hn. cbn [fn]. change ("let" =? "let") with true. cbv iota. apply in_or_app. now left. }
+    assert (S0 : st_ok (mid_scope Sc (vals_of []) []) (pop1 (pop1 (pop1 s)))).
+    { eapply st_ok_ext; [|exact Hi]. intros n. reflexivity. }
+    destruct (bindings_spec R Sc HF bl Hbs [] [] (pop1 (pop1 (pop1 s))) names sb Hfn_b Hnd) as (more & Hnames & Hmf & Hfa & Hsb);
+      [intros n H; discriminate H | exact S0 | exact Eb |].
+    cbn [app] in Hnames, Hsb.
+    set (ns := map fst more) in *. set (taus := map snd more).
+    set (Sc_body := fun n => match alookup n (vals_of more) with Some e => e :: Sc n | None => Sc n end) in *.
+    set (R_body := fun I : interp => bind_env (R I) ns (map (eval I) taus)).
+    assert (Hnd_ns : nodup_str ns = true) by (now rewrite Hmf).
+    assert (Hlet_ns : forall n, In n ns -> let_name n = true).
+    { intros n Hin. rewrite Hmf in Hin. apply in_map_iff in Hin. destruct Hin as (b1 & <- & Hb1).
+      rewrite Forall_forall in Hbs. destruct (Hbs b1 Hb1) as (v & val & -> & Hl & _). exact Hl. }
+    (* the body, in the scope of the let *)
+    assert (HF_body : heads_free R_body).
+    { intros I h Hh. unfold R_body. rewrite bind_env_out; [now apply HF|].
+      intros Hin. specialize (Hlet_ns h Hin). unfold let_name in Hlet_ns. apply andb_true_iff in Hlet_ns.
+      destruct Hlet_ns as [_ Hc]. apply negb_true_iff in Hc. apply str_in_false in Hc. contradiction. }
+    assert (Hn_body : forall n, In n (fn body) -> name_agrees R_body Sc_body n).
+    { intros n Hin. destruct (str_in n ns) eqn:Ein.
+      - apply str_in_In in Ein. destruct (alookup_vals_in more n Ein) as (tau & Hlk & Hintau).
+        pose proof (Hlet_ns n Ein) as Hl. unfold let_name in Hl. apply andb_true_iff in Hl. destruct Hl as [Hpl _].
+        split; [exact Hpl|]. exists tau. split; [unfold Sc_body; now rewrite Hlk|]. split.
+        + clear - Hfa Hintau. induction Hfa as [|b1 p r more' Hb _ IH]; [contradiction|].
+          destruct Hintau as [E|Hin]; [subst p; exact (proj1 Hb) | now apply IH].
+        + intros I HI. rewrite (eval_atom_plain I _ n Hpl). unfold R_body.
+          rewrite (bind_env_in ns _ (R I) n (eval I tau) Hnd_ns); [reflexivity|]. now apply in_combine_done.
+      - assert (Hout : ~ In n ns) by (now apply str_in_false).
+        assert (Ha : name_agrees R Sc n).
+        { apply Hn. cbn [fn]. change ("let" =? "let") with true. cbv iota. apply in_or_app. right.
+          apply filter_In. split; [exact Hin|]. apply negb_true_iff. fold bl. rewrite <- Hmf. exact Ein. }
+        destruct Ha as (Hpl & tau & Hhd & Hg & Hev). split; [exact Hpl|]. exists tau.
+        split; [unfold Sc_body; rewrite alookup_notin by (now rewrite map_fst_vals); exact Hhd|]. split; [exact Hg|].
+        intros I HI. rewrite (eval_atom_plain I _ n Hpl). unfold R_body. rewrite bind_env_out by exact Hout.
+        rewrite <- (eval_atom_plain I _ n Hpl). now apply Hev. }
+    destruct (Hbody R_body Sc_body sb b s2 HF_body Hn_body Hsb Ebody) as (S2 & t & -> & Hgt & Hst).
+    (* leaving *)
+    subst names.
+    cbn [call] in Ec. apply bind_ok in Ec. destruct Ec as (u & s3 & Eu & Ec). inversion Ec; subst i s3. clear Ec.
+    destruct (unbind_all_scope ns Sc_body (pop1 s2)) as (s4 & E4 & _ & S4); [exact Hnd_ns | exact S2 | |].
+    { intros n Hin. destruct (alookup_vals_in more n Hin) as (tau & Hlk & _).
+      unfold Sc_body. rewrite Hlk. discriminate. }
+    rewrite E4 in Eu. inversion Eu; subst s4.
+    split.
+    - eapply st_ok_ext; [|exact S4]. intros k. cbn beta. unfold Sc_body.
+      destruct (str_in k ns) eqn:Ek.
+      + apply str_in_In in Ek. destruct (alookup_vals_in more k Ek) as (tau & -> & _). reflexivity.
+      + apply str_in_false in Ek. now rewrite alookup_notin by (now rewrite map_fst_vals).
+    - exists t. split; [reflexivity|]. split; [exact Hgt|]. intros I HI.
+      cbn [seval]. change ("let" =? "let") with true. cbv iota. cbv zeta.
+      fold bl. rewrite (names_all_some bl Hbs), (vals_all_some R I bl more HI Hfa Hbs).
+      rewrite <- Hmf. fold ns. rewrite Hnd_ns.
+      assert (Hlen : (List.length ns =? 0)%nat = false).
+      { rewrite Hmf. reflexivity. }
+      rewrite Hlen. cbn [negb andb]. exact (Hst I HI).
+  Qed.
+
+  (* ---- the fragment, by induction on the size of the s-expression ---- *)
+  Lemma elab_agrees_size : forall n x, (ssize x <= n)%nat -> corelb x = true -> spec x.
+  Proof.
+    induction n as [|n IHn]; intros x Hsz Hc.
+    { destruct x; cbn in Hsz; lia. }
+    destruct x as [a|l]; [apply atom_agrees|].
+    assert (Hsub : forall y, In y l -> corelb y = true -> spec y).
+    { intros y Hy. apply IHn. pose proof (ssize_in y l Hy). cbn [ssize] in Hsz. lia. }
+    destruct l as [|[h|?] rest]; try discriminate Hc. cbn [corelb] in Hc.
+    destruct (h =? "let") eqn:Hlet.
+    - apply String.eqb_eq in Hlet. subst h.
+      destruct rest as [|[?|[|b0 bs]] [|body [|? ?]]]; try discriminate Hc.
+      apply andb_true_iff in Hc. destruct Hc as [Hc Hbody]. apply andb_true_iff in Hc. destruct Hc as [Hbs Hnd].
+      apply let_agrees; [| exact Hnd | apply Hsub; [cbn; auto | exact Hbody]].
+      apply Forall_forall. intros bd Hin. rewrite forallb_forall in Hbs. specialize (Hbs bd Hin).
+      destruct bd as [a|[|[v|l1] [|val [|y l2]]]]; try discriminate Hbs.
+      apply andb_true_iff in Hbs. destruct Hbs as [Hv Hval]. exists v, val. split; [reflexivity|]. split; [exact Hv|].
+      apply IHn; [|exact Hval].
+      pose proof (ssize_in _ _ Hin) as Hs1. cbn [ssize fold_right] in Hs1, Hsz. lia.
+    - apply andb_true_iff in Hc. destruct Hc as [Hargs Hh].
+      apply app_agrees; [exact Hlet | exact Hh |]. apply Forall_forall. intros y Hy.
+      apply Hsub; [now right|]. rewrite forallb_forall in Hargs. now apply Hargs.
+  Qed.
+  Theorem elab_agrees_core : forall x, corelb x = true -> spec x.
+  Proof. intros x. exact (elab_agrees_size (ssize x) x (le_n _)). Qed.
+
+  (* names that mean what they should: true, false, declared Boolean constants *)
+  Lemma good_true : good TTrue.
+  Proof. apply good_plain; [reflexivity | intros I _; exists true; reflexivity | reflexivity]. Qed.
+  Lemma good_false : good TFalse.
+  Proof. apply good_plain; [reflexivity | intros I _; exists false; reflexivity | reflexivity]. Qed.
+  Lemma name_agrees_true R Sc : (forall I, assoc "true" (R I) = None) -> hd_error (Sc "true") = Some (ITerm TTrue) ->
+    name_agrees R Sc "true".
+  Proof.
+    intros HR H. split; [reflexivity|]. exists TTrue. split; [exact H|]. split; [exact good_true|].
+    intros I _. rewrite eval_atom_plain by reflexivity. now rewrite HR.
+  Qed.
+  Lemma name_agrees_false R Sc : (forall I, assoc "false" (R I) = None) -> hd_error (Sc "false") = Some (ITerm TFalse) ->
+    name_agrees R Sc "false".
+  Proof.
+    intros HR H. split; [reflexivity|]. exists TFalse. split; [exact H|]. split; [exact good_false|].
+    intros I _. rewrite eval_atom_plain by reflexivity. now rewrite HR.
+  Qed.
+  Lemma name_agrees_const R Sc a :
+    plain_name a = true -> (forall I, assoc a (R I) = None) ->
+    assoc a std_consts = None -> assoc a (sg_funs Sg) = Some TBool ->
+    hd_error (Sc a) = Some (ITerm (TSym a TBool)) -> name_agrees R Sc a.
+  Proof.
+    intros Hp HR Hc Hs H. split; [exact Hp|]. exists (TSym a TBool). split; [exact H|].
+    assert (Hb : forall I, wf_interp I -> bval I (TSym a TBool)).
+    { intros I [Hs1 _]. specialize (Hs1 a TBool Logic.I). cbn in Hs1. unfold bval. cbn [eval TSym].
+      destruct (isym I a TBool); try contradiction. eexists; reflexivity. }
+    split; [apply good_plain; [reflexivity | exact Hb | reflexivity]|].
+    intros I HI. rewrite (eval_atom_plain I _ a Hp), HR.
+    destruct (plain_name_inv a Hp) as (_ & Hsy & H1 & H2 & H3 & H4).
+    unfold eval_atom. rewrite H1, H2, H3, H4, Hsy. cbn [assoc]. now rewrite Hc, Hs.
   Qed.
 End Core.
 
 (* ------------------------------------------------------------------------- the stack machine itself *)
-Lemma core_simple Sg D : forall x, core Sg D x -> simpleb x = true.
+Lemma corel_simple_size : forall n x, (ssize x <= n)%nat -> corelb x = true -> simpleb x = true.
 Proof.
-  induction x as [a|l IH] using sexp_ind'; intros Hc.
-  - cbn [core] in Hc. cbn [simpleb]. destruct Hc as [->|[->|(Hp & _)]]; [reflexivity | reflexivity | now rewrite Hp].
-  - destruct l as [|[h|?] args]; try contradiction.
-    apply core_app in Hc. destruct Hc as [Hargs Hh]. inversion IH as [|? ? _ IHargs]; subst.
-    cbn [simpleb].
-    assert (Hhd : negb (is_paren h) = true /\ let_head h = false /\ quant_head h = None /\ app_head h = true).
-    { destruct Hh as [[[->| ->] _]|[[-> _]|[[-> _]|[[-> _]|[-> _]]]]]; repeat split; reflexivity. }
-    destruct Hhd as (-> & -> & -> & ->). cbn [andb]. apply forallb_forall. intros y Hy.
-    rewrite Forall_forall in *. apply IHargs; [exact Hy | now apply Hargs].
+  induction n as [|n IHn]; intros x Hsz Hc.
+  { destruct x; cbn in Hsz; lia. }
+  destruct x as [a|l].
+  - cbn [corelb] in Hc. cbn [simpleb]. destruct (plain_name_inv a Hc) as (-> & _). reflexivity.
+  - assert (Hsub : forall y, In y l -> corelb y = true -> simpleb y = true).
+    { intros y Hy. apply IHn. pose proof (ssize_in y l Hy). cbn [ssize] in Hsz. lia. }
+    destruct l as [|[h|?] rest]; try discriminate Hc. cbn [corelb] in Hc.
+    destruct (h =? "let") eqn:Hlet.
+    + apply String.eqb_eq in Hlet. subst h.
+      destruct rest as [|[?|[|b0 bs]] [|body [|? ?]]]; try discriminate Hc.
+      apply andb_true_iff in Hc. destruct Hc as [Hc Hbody]. apply andb_true_iff in Hc. destruct Hc as [Hbs _].
+      cbn [simpleb]. change (let_head "let") with true. change (is_paren "let") with false. cbn [negb andb].
+      apply andb_true_iff. split; [|apply Hsub; [cbn; auto | exact Hbody]].
+      apply forallb_forall. intros bd Hin. rewrite forallb_forall in Hbs. specialize (Hbs bd Hin).
+      destruct bd as [a|[|[v|l1] [|val [|y l2]]]]; try discriminate Hbs.
+      apply andb_true_iff in Hbs. destruct Hbs as [Hv Hval]. unfold let_name in Hv. apply andb_true_iff in Hv.
+      destruct Hv as [Hv _]. destruct (plain_name_inv v Hv) as (-> & _). cbn [negb andb].
+      apply IHn; [|exact Hval]. pose proof (ssize_in _ _ Hin) as Hs1. cbn [ssize fold_right] in Hs1, Hsz. lia.
+    + apply andb_true_iff in Hc. destruct Hc as [Hargs Hh]. apply head_cases in Hh.
+      assert (Hhd : negb (is_paren h) = true /\ let_head h = false /\ quant_head h = None /\ app_head h = true).
+      { destruct Hh as [[[->| ->] _]|[[-> _]|[[-> _]|[[-> _]|[-> _]]]]]; repeat split; reflexivity. }
+      cbn [simpleb]. destruct Hhd as (-> & -> & -> & ->). cbn [andb]. apply forallb_forall. intros y Hy.
+      apply Hsub; [now right|]. rewrite forallb_forall in Hargs. now apply Hargs.
 Qed.
+Lemma corel_simple x : corelb x = true -> simpleb x = true.
+Proof. exact (corel_simple_size (ssize x) x (le_n _)). Qed.
 
 (* FULL STATEMENT (parse_agrees): std_script_ok s -> parse_model (text of s) = Ok cmds -> every
    asserted term t of cmds satisfies forall I, std_eval Sigma I (its sexp) = Some (eval I t).
-   Proved here, for the term reader on the Core fragment, any nesting depth, any stack below, any
-   tokens after: whenever the recursive reading of x succeeds, the stack machine get_expr returns
-   exactly that result, it is a term of sort Bool, and it denotes what core/SmtStd.v says x denotes.
-   (That the recursive reading does succeed on the fragment, and the machine's behaviour when it
-   does not, are carried by the correspondence.) *)
-Theorem parse_agrees_core_partial Sg D :
-  alookup "true" D = Some (ITerm TTrue) -> alookup "false" D = Some (ITerm TFalse) ->
-  forall x, core Sg D x ->
-  forall s i s' rest k, inv D s -> toks s = flatten x ++ rest -> elab x s = ROk i s' ->
-    get_expr (cost x + k) [] s = ROk (Some i) s' /\ toks s' = rest /\ inv D s' /\
+   Proved here, for the term reader on the fragment Core + let, any nesting depth, any tokens after:
+   whenever the recursive reading of x succeeds in a state where the free names of x mean the same
+   thing on both sides, the stack machine get_expr returns exactly that result, it is a term of sort
+   Bool, the cache is as it was, and the term denotes what core/SmtStd.v says x denotes (parallel
+   let included).  (That the recursive reading does succeed on the fragment, and the machine's
+   behaviour when it does not, are carried by the correspondence.) *)
+Theorem parse_agrees_core_partial Sg (Sc : scope) x :
+  corelb x = true ->
+  (forall n, In n (fn x) -> name_agrees Sg (fun _ => []) Sc n) ->
+  forall s i s' rest k, st_ok Sc s -> toks s = flatten x ++ rest -> elab x s = ROk i s' ->
+    get_expr (cost x + k) [] s = ROk (Some i) s' /\ toks s' = rest /\ st_ok Sc s' /\
     exists t, i = ITerm t /\ tc t = Some TBool /\
               forall I, wf_interp I -> std_eval Sg I x = Some (eval I t).
 Proof.
-  intros Ht Hf x Hc s i s' rest k Hi Htoks He.
-  destruct (machine_simple_top x (core_simple Sg D x Hc) k s i s' rest He Htoks) as [G T].
-  destruct (elab_agrees_core Sg D Ht Hf x Hc s i s' Hi He) as (Hi' & t & -> & Htc & _ & Hsem).
+  intros Hc Hn s i s' rest k Hi Htoks He.
+  destruct (machine_simple_top x (corel_simple x Hc) k s i s' rest He Htoks) as [G T].
+  assert (HF : heads_free (fun _ : interp => [])) by (intros I h _; reflexivity).
+  destruct (elab_agrees_core Sg x Hc (fun _ => []) Sc s i s' HF Hn Hi He) as (Hi' & t & -> & (Htc & _) & Hsem).
   split; [exact G|]. split; [exact T|]. split; [exact Hi'|].
   exists t. split; [reflexivity|]. split; [exact Htc|]. intros I HI. apply (Hsem I HI).
 Qed.
 
-(* the hypotheses are satisfiable: a nested Core term over two declared constants *)
+(* the hypotheses are satisfiable: nested Core terms over two declared constants, a parallel let
+   that swaps them, a let shadowing a let, a double negation *)
 Definition ex_sig : sig := {| sg_sorts := []; sg_funs := [("p", TBool); ("q", TBool)] |}.
-Definition ex_D : list (string * item) :=
-  [("p", ITerm (TSym "p" TBool)); ("q", ITerm (TSym "q" TBool)); ("false", ITerm TFalse); ("true", ITerm TTrue)].
+Definition ex_keys : list (string * list item) :=
+  [("p", [ITerm (TSym "p" TBool)]); ("q", [ITerm (TSym "q" TBool)]); ("false", [ITerm TFalse]); ("true", [ITerm TTrue])].
+Definition ex_state (x : sexp) : pstate :=
+  mkS (flatten x) LexEof ex_keys [] None [("p", TBool); ("q", TBool)] 0%Z [] (map (fun _ => None) (flatten x)).
+Definition ex_scope : scope := fun n => match alookup n ex_keys with Some l => l | None => [] end.
 Definition ex_sexp : sexp :=
-  SList [Atom "and"; SList [Atom "=>"; Atom "p"; SList [Atom "not"; Atom "q"]];
+  SList [Atom "and"; SList [Atom "=>"; Atom "p"; SList [Atom "not"; SList [Atom "not"; Atom "q"]]];
          SList [Atom "="; Atom "q"; SList [Atom "ite"; Atom "p"; Atom "true"; SList [Atom "or"; Atom "p"; Atom "q"; Atom "false"]]]].
-Example ex_core : core ex_sig ex_D ex_sexp.
+(* (let ((p q) (q p)) (and p (not q) (let ((r (or p q)) (p true)) (= r p)))) *)
+Definition ex_let : sexp :=
+  SList [Atom "let"; SList [SList [Atom "p"; Atom "q"]; SList [Atom "q"; Atom "p"]];
+         SList [Atom "and"; Atom "p"; SList [Atom "not"; Atom "q"];
+                SList [Atom "let"; SList [SList [Atom "r"; SList [Atom "or"; Atom "p"; Atom "q"]]; SList [Atom "p"; Atom "true"]];
+                       SList [Atom "="; Atom "r"; Atom "p"]]]].
+
+Lemma ex_names x : (forall n, In n (fn x) -> In n ["p"; "q"; "true"; "false"]) ->
+  forall n, In n (fn x) -> name_agrees ex_sig (fun _ => []) ex_scope n.
 Proof.
-  assert (Hp : bool_const ex_sig ex_D "p") by (repeat split; reflexivity).
-  assert (Hq : bool_const ex_sig ex_D "q") by (repeat split; reflexivity).
-  unfold ex_sexp.
-  repeat (apply core_app; split; [repeat (first [apply Forall_nil | apply Forall_cons]) | ]);
-    try (cbn [core]; tauto);
-    try (left; split; [tauto | cbn; lia]);
-    try (right; left; split; reflexivity);
-    try (right; right; left; split; reflexivity);
-    try (right; right; right; left; split; reflexivity);
-    try (right; right; right; right; split; [reflexivity | eexists; split; reflexivity]).
+  intros H n Hin. specialize (H n Hin). cbn in H. destruct H as [<-|[<-|[<-|[<-|[]]]]].
+  - apply name_agrees_const; reflexivity.
+  - apply name_agrees_const; reflexivity.
+  - apply name_agrees_true; reflexivity.
+  - apply name_agrees_false; reflexivity.
+Qed.
+Lemma ex_st x : st_ok ex_scope (ex_state x).
+Proof. split; [reflexivity|]. split; reflexivity. Qed.
+
+Example ex_core : corelb ex_sexp = true /\ forall n, In n (fn ex_sexp) -> name_agrees ex_sig (fun _ => []) ex_scope n.
+Proof. split; [reflexivity|]. apply ex_names. cbn. tauto. Qed.
+
+(* the parallel let is read as the standard says: p and q are swapped, r is (or q p), the inner p is true *)
+Definition ex_let_term : term :=
+  T OAnd [TSym "q" TBool; T ONot [TSym "p" TBool];
+          T OIff [T OOr [TSym "q" TBool; TSym "p" TBool]; TTrue]].
+Example ex_let_reads :
+  corelb ex_let = true /\
+  (forall n, In n (fn ex_let) -> name_agrees ex_sig (fun _ => []) ex_scope n) /\
+  (exists s', get_expression (ex_state ex_let) = ROk (Some (ITerm ex_let_term)) s') /\
+  forall I, wf_interp I -> std_eval ex_sig I ex_let = Some (eval I ex_let_term).
+Proof.
+  assert (Hc : corelb ex_let = true) by reflexivity.
+  assert (Hn : forall n, In n (fn ex_let) -> name_agrees ex_sig (fun _ => []) ex_scope n) by (apply ex_names; cbn; tauto).
+  split; [exact Hc|]. split; [exact Hn|].
+  destruct (elab ex_let (ex_state ex_let)) as [i s'|e s'] eqn:He; [|vm_compute in He; discriminate He].
+  assert (Hi : i = ITerm ex_let_term) by (vm_compute in He; now inversion He).
+  assert (Ht : toks (ex_state ex_let) = flatten ex_let ++ []) by (cbn [toks ex_state]; now rewrite app_nil_r).
+  assert (Hfuel : exists k, expr_fuel (ex_state ex_let) = (cost ex_let + k)%nat) by (exists (expr_fuel (ex_state ex_let) - cost ex_let)%nat; vm_compute; reflexivity).
+  destruct Hfuel as [k Hk].
+  destruct (parse_agrees_core_partial ex_sig ex_scope ex_let Hc Hn _ _ _ [] k (ex_st ex_let) Ht He)
+    as (G & _ & _ & t & Ei & _ & Hsem).
+  subst i. inversion Ei; subst t. split; [|exact Hsem].
+  exists s'. unfold get_expression. rewrite Hk. exact G.
 Qed.
